@@ -494,6 +494,80 @@ func runExt4Case(prop string, c core.Case, env *core.Env) core.Result {
 			}
 			reopenCmp()
 		}
+	case "dirfrag":
+		// a directory made of two to four extents, each of a chosen number of blocks (entries are added as empty
+		// files, which allocate nothing, and a data file is written whenever an extent is to end), with a data
+		// file right behind every extent; then entries are removed a few at a time so that the directory's
+		// length steps down through every block count, i.e. ends inside every extent at every position, and
+		// after each step something new is allocated and every file is compared with the model
+		r := gen.New(c.Seed)
+		nm := func(i int) string {
+			return fmt.Sprintf("frag/%03d_%s", i, strings.Repeat(string(rune('a'+i%26)), 230+(i*7)%20))
+		}
+		if !step(fsdrive.Op{Kind: "mkdir", Path: "frag"}) {
+			return res
+		}
+		perBlock := bs / 264 // entries of this length per directory block, about
+		ext := 2 + r.Intn(3)
+		i := 0
+		total := 0
+		for e := 0; e < ext; e++ {
+			if !step(fsdrive.Op{Kind: "write", Path: fmt.Sprintf("barrier%d", e), Len: bs*(1+r.Intn(3)) + r.Intn(bs), DSeed: uint64(900 + e)}) {
+				return res
+			}
+			blocks := 1 + r.Intn(4)
+			if e == 0 {
+				blocks = r.Intn(2) // the first extent has the block made by mkdir
+			}
+			total += blocks
+			for k := 0; k < blocks*perBlock; k++ {
+				if !step(fsdrive.Op{Kind: "write", Path: nm(i), Len: 0}) {
+					return res
+				}
+				i++
+			}
+		}
+		if !step(fsdrive.Op{Kind: "write", Path: "behind", Len: 3*bs + 17, DSeed: 77}) {
+			return res
+		}
+		res.Mark(fmt.Sprintf("directory in %d extents", ext))
+		cmpAll := func() bool {
+			if drv.Diverged {
+				return false
+			}
+			if prop == "C04" {
+				drv.Compare(fs, "live", nil)
+			}
+			return !drv.Diverged
+		}
+		if !cmpAll() {
+			return res
+		}
+		// shrink: about half a block of entries at a time, from the end
+		j := i
+		for round := 0; j > 0; round++ {
+			for k := 0; k < perBlock/2+1 && j > 0; k++ {
+				j--
+				if !step(fsdrive.Op{Kind: "remove", Path: nm(j)}) {
+					return res
+				}
+			}
+			// something that allocates: a data file, now and then a directory
+			if round%3 == 2 {
+				if !step(fsdrive.Op{Kind: "mkdir", Path: fmt.Sprintf("after%d", round)}) {
+					return res
+				}
+			} else if !step(fsdrive.Op{Kind: "write", Path: fmt.Sprintf("after%d.dat", round), Len: bs*(1+round%3) + 5, DSeed: uint64(3000 + round)}) {
+				return res
+			}
+			if !cmpAll() {
+				return res
+			}
+		}
+		res.Mark("fragmented directory shrunk block by block with allocations in between")
+		if !drv.Diverged {
+			reopenCmp()
+		}
 	case "appendspan":
 		// a file grown by many appends across several block groups (contiguous appends share an extent, so extents
 		// come to span group boundaries wherever a group has no metadata at its start), then released in
